@@ -401,6 +401,9 @@ type ParCase struct {
 	FailAt   []int `json:"failing_args"`
 	KeepType bool  `json:"collect_results"`
 	DelayUs  []int `json:"delays_us"`
+	// NilAt: the invocations for these arguments return a nil result (results are then collected as []interface{}, of which
+	// nil is an ordinary element)
+	NilAt []int `json:"nil_results_at,omitempty"`
 }
 
 func checkPar(t ev.T, test string, c ParCase) {
@@ -411,6 +414,10 @@ func checkPar(t ev.T, test string, c ParCase) {
 	fail := map[int]bool{}
 	for _, f := range c.FailAt {
 		fail[f] = true
+	}
+	nilAt := map[int]bool{}
+	for _, f := range c.NilAt {
+		nilAt[f] = true
 	}
 	base := runtime.NumGoroutine()
 	var mu sync.Mutex
@@ -431,18 +438,24 @@ func checkPar(t ev.T, test string, c ParCase) {
 			mu.Unlock()
 			return nil, e
 		}
+		if nilAt[i] {
+			return nil, nil
+		}
 		return i * 10, nil
 	}
 	var rt reflect.Type
 	if c.KeepType {
 		rt = reflect.TypeOf([]int{})
+		if len(c.NilAt) > 0 {
+			rt = reflect.TypeOf([]interface{}{})
+		}
 	}
 	var res interface{}
 	var err error
 	done := make(chan struct{})
 	go func() {
 		defer close(done)
-		res, err = parallelisation.Parallelise(args, action, rt)
+		ev.Guard(t, prop, test, c, func() { res, err = parallelisation.Parallelise(args, action, rt) })
 	}()
 	select {
 	case <-done:
@@ -479,6 +492,32 @@ func checkPar(t ev.T, test string, c ParCase) {
 	if anyFail {
 		ev.Fail(t, prop, test, c, "an invocation failed but Parallelise returned nil")
 	}
+	if c.KeepType && len(c.NilAt) > 0 {
+		got, ok := res.([]interface{})
+		if !ok || len(got) != c.Args {
+			ev.Fail(t, prop, test, c, "results have type %T and length %d for %d arguments", res, len(got), c.Args)
+		}
+		nils, sum := 0, 0
+		for _, v := range got {
+			if v == nil {
+				nils++
+			} else if iv, isInt := v.(int); isInt {
+				sum += iv
+			}
+		}
+		wantNils, wantSum := 0, 0
+		for i := 0; i < c.Args; i++ {
+			if nilAt[i] {
+				wantNils++
+			} else {
+				wantSum += i * 10
+			}
+		}
+		if nils != wantNils || sum != wantSum {
+			ev.Fail(t, prop, test, c, "results are not the multiset of the invocations' results: %d nil (want %d), sum of the others %d (want %d)", nils, wantNils, sum, wantSum)
+		}
+		return
+	}
 	if c.KeepType {
 		got, ok := res.([]int)
 		if !ok {
@@ -504,6 +543,9 @@ func TestParallelise(t *testing.T) {
 		}
 		if rapid.Bool().Draw(rt, "delays") {
 			c.DelayUs = rapid.SliceOfN(rapid.IntRange(0, 800), 1, 5).Draw(rt, "delays_us")
+		}
+		if c.Args > 0 && c.KeepType && rapid.IntRange(0, 3).Draw(rt, "nil-results") == 0 {
+			c.NilAt = rapid.SliceOfN(rapid.IntRange(0, c.Args-1), 1, 4).Draw(rt, "nil-at")
 		}
 		key, _ := json.Marshal(c)
 		ev.Case(string(key), len(c.FailAt) > 0 || c.Args > 1, "parallelise", c)
